@@ -95,10 +95,13 @@ def otaa_handle_rx(c, res):
     bf = c.bf('lorawan_device::mac::otaa::Otaa::handle_rx')
     body = bf.body
     roots = {param_by_name(body, n): n for n in ('self', 'region', 'configuration')}
-    bbm, tm = one_call(bf, 'DecryptedJoinAcceptPayload::check_mic_and_decrypt_in_place')
-    ok = bf.ok_edges(tm.dest.local)
+    # the acceptance test: Ok of check_mic_and_decrypt_in_place, or a true validate_mic on the decrypted JoinAccept
+    ok = []
+    for bbm, tm in bf.calls_to('DecryptedJoinAcceptPayload::check_mic_and_decrypt_in_place') + bf.calls_to('DecryptedJoinAcceptPayload::validate_mic'):
+        ok += bf.ok_edges(tm.dest.local)
     if not ok:
-        raise CheckError('check_mic_and_decrypt_in_place result not branched on in Otaa::handle_rx')
+        res.violation('C07:Otaa::handle_rx:no-acceptance-test', 'no MIC acceptance branch found in Otaa::handle_rx (check_mic_and_decrypt_in_place / validate_mic result is not '
+                      'branched on in this function): its effects cannot be shown to follow acceptance', short_site(bf, 0), 'DOM(effect => JoinAccept MIC ok)')
     evs = effects(c, bf, set(roots))
     if len(evs) < 4:
         raise CheckError('floor: expected >= 4 effects in Otaa::handle_rx, found %d' % len(evs))
